@@ -551,6 +551,7 @@ func cmdCheck(args []string) {
 	if err := os.WriteFile(filepath.Join(evDir, id+".json"), eb, 0o644); err != nil {
 		fmt.Fprintln(os.Stderr, err)
 	}
+	os.RemoveAll(scratch) // (deferred calls do not run on os.Exit)
 	if engineErr != "" && exit == 0 {
 		// machinery error: no verdict. The contract knows only 0 and 1;
 		// report as not-a-violation but flag loudly.
@@ -722,6 +723,12 @@ func nativeReplay(repo, verif, pdir, id string, g GroupCfg, replayPath, scratch 
 		runErr = cmd.Run()
 	}
 	text := out.String()
+	// the sandbox directories of the native run are not needed any more
+	for _, l := range strings.Split(text, "\n") {
+		if f := strings.Fields(l); len(f) == 3 && f[0] == "VERIF-SANDBOX" && strings.HasPrefix(filepath.Base(f[1]), "verif-sandbox-") {
+			os.RemoveAll(f[1])
+		}
+	}
 	if os.Getenv("SYMGO_SHOW_NATIVE") != "" {
 		fmt.Fprintln(os.Stderr, text)
 	}
